@@ -124,8 +124,11 @@ fn run_mode(mode: &str, conns: &[(bool, Vec<String>)], keep: &[bool], kinds: &[c
     for (ci, (_, steps)) in conns.iter().enumerate() {
         let mut s = match connect(Duration::from_secs(2)) { Some(s) => s, None => { transcripts.push("NOCONNECT".to_string()); continue; } };
         let _ = t0;
+        // the server's setup hook must have seen this connection before the script goes on (otherwise, on a slow machine,
+        // a connection still in the listen backlog would meet a later decision, e.g. StopAccepting)
+        { let ta = Instant::now(); while accepted.load(Ordering::SeqCst) < ci + 1 && ta.elapsed() < Duration::from_secs(3) { std::thread::sleep(Duration::from_micros(200)); } }
         s.set_nodelay(true).unwrap();
-        s.set_read_timeout(Some(Duration::from_millis(1500))).unwrap();
+        s.set_read_timeout(Some(Duration::from_millis(3000))).unwrap();
         let mut rbuf: Vec<u8> = Vec::new();
         let mut outs = Vec::new();
         if kinds[ci] == 'Q' {
@@ -142,8 +145,8 @@ fn run_mode(mode: &str, conns: &[(bool, Vec<String>)], keep: &[bool], kinds: &[c
                 _ => { let r = read_one(&mut s, &mut rbuf); outs.push(r); }
             }
         }
-        // final state: does the server close within 150 ms?
-        s.set_read_timeout(Some(Duration::from_millis(150))).unwrap();
+        // final state: does the server close within 400 ms?
+        s.set_read_timeout(Some(Duration::from_millis(400))).unwrap();
         let mut tmp = [0u8; 1024];
         let fin = match s.read(&mut tmp) { Ok(0) => "EOF", Ok(_) => "DATA", Err(e) if e.kind() == std::io::ErrorKind::WouldBlock || e.kind() == std::io::ErrorKind::TimedOut => "OPEN", Err(_) => "EOF" };
         if keep[ci] { held.push((ci, s)); transcripts.push(format!("{}|{}", outs.join(";"), fin)); continue; }
@@ -169,7 +172,7 @@ fn run_mode(mode: &str, conns: &[(bool, Vec<String>)], keep: &[bool], kinds: &[c
     for (ci, mut s, nr) in queued {
         let mut rbuf = Vec::new();
         let outs: Vec<String> = (0..nr).map(|_| read_one(&mut s, &mut rbuf)).collect();
-        s.set_read_timeout(Some(Duration::from_millis(150))).unwrap();
+        s.set_read_timeout(Some(Duration::from_millis(400))).unwrap();
         let mut tmp = [0u8; 1024];
         let fin = match s.read(&mut tmp) { Ok(0) => "EOF", Ok(_) => "DATA", Err(e) if e.kind() == std::io::ErrorKind::WouldBlock || e.kind() == std::io::ErrorKind::TimedOut => "OPEN", Err(_) => "EOF" };
         transcripts[ci] = format!("{}|{}", outs.join(";"), fin);
@@ -212,7 +215,11 @@ pub fn run(case: &str) -> String {
         let (d, steps) = c.split_once(':').unwrap();
         (d != "X", steps.split(';').filter(|x| !x.is_empty()).map(|x| x.to_string()).collect())
     }).collect();
-    ["pool", "threaded", "epoll"].iter().map(|m| run_mode(m, &conns, &keep, &kinds, threads, max_head, linger_ms)).collect::<Vec<_>>().join(" ## ")
+    // the three servers run side by side (separate listeners, logs and client threads)
+    std::thread::scope(|sc| {
+        let hs: Vec<_> = ["pool", "threaded", "epoll"].iter().map(|m| { let (conns, keep, kinds) = (&conns, &keep, &kinds); sc.spawn(move || run_mode(m, conns, keep, kinds, threads, max_head, linger_ms)) }).collect();
+        hs.into_iter().map(|h| h.join().unwrap_or_else(|_| "mode=? PANIC".into())).collect::<Vec<_>>().join(" ## ")
+    })
 }
 
 pub fn gen(ctx: &Ctx) {
